@@ -9,6 +9,7 @@ verus! {
 global size_of usize == 8;
 
 //@include preamble/state_types.rs
+//@include spec/cell_specs.rs
 //@include spec/machine.rs
 //@include spec/state_specs.rs
 //@include spec/compile_specs.rs
